@@ -78,7 +78,7 @@ func checkPipe(px *parserExec, decBuf int) (r pipeResult) {
 			// the block as plain bytes so that the search continues.
 			r.excluded++
 			done := len(dx.all) - before
-			dx.step(DOp{Op: "write", Data: px.fed[b.W+done : b.W+b.N]})
+			dx.step(DOp{Op: "write", Data: b.Fed[b.W+done : b.W+b.N]})
 			if m, bad := dx.first("C07"); bad {
 				r.msg, r.bad = "resync write: "+m, true
 				return r
